@@ -2,7 +2,7 @@
 META = dict(
   level_text='Whole-pipeline model checking of Clipper64::Execute in the USINGZ configuration on concrete geometries with EVERY Z quantity symbolic (the z of each input vertex, DefaultZ, whether a callback is installed and every value it assigns): for all of them the x,y solution equals the one the plain build produces (obtained natively at check time), and every solution vertex either coincides with an input vertex and carries a z given at that location, or carries what the callback assigned for exactly that point, or DefaultZ when no callback is installed.',
   level_note='Geometry is a small concrete corpus (listed); the quantifier covers all Z labelings/callback behaviours, not all geometry: Z never steers the sweep, which is what makes the whole Execute symbolically executable here. ClipperD::ZCB, ClipperOffset::ZCB and RectClip are not covered.',
-  functions=['Clipper64::Execute (USINGZ)', 'ClipperBase::SetZ', 'ClipperBase::IntersectEdges', 'ClipperBase::AddPaths', 'Clipper64::BuildPaths64', 'Point<long> (z member, equality ignores z)'],
+  functions=['ClipperBase::DoSplitOp (USINGZ)', 'ClipperBase::Split', 'ClipperBase::CheckJoinLeft/Right (via Execute)', 'Clipper64::Execute (USINGZ)', 'ClipperBase::SetZ', 'ClipperBase::IntersectEdges', 'ClipperBase::AddPaths', 'Clipper64::BuildPaths64', 'Point<long> (z member, equality ignores z)'],
   assumptions=['geometries: two crossing triangles subject/clip (Intersection); triangle inside a square (no crossings); two overlapping subjects with a distant clip (Difference)'],
   outside=['all other geometry', 'offsetting / rect clipping / ClipperD Z handling'],
 )
